@@ -97,6 +97,11 @@ func execParserOp(op *concOp, p PH, w *world, mb *mailbox, reference bool) strin
 		res = lexCall(func() ([]lexer.Token, error) { return p.Lex(name, strings.NewReader(op.input)) })
 	case "Parser.String":
 		res = call(func() (interface{}, error) { s := p.String(); return &s, nil })
+	case "ParseTrace":
+		res = call(func() (interface{}, error) {
+			w := &SimWriter{}
+			return p.ParseString(name, op.input, participle.Trace(w))
+		})
 	case "ParserForProduction":
 		res = call(func() (interface{}, error) { return exprProduction(p, op.input) })
 	case "PostError":
@@ -184,6 +189,25 @@ func execDefOp(op *concOp, def lexer.Definition) string {
 			s := string(b)
 			return &s, err
 		})
+	case "MakeSymbolTable":
+		res = call(func() (interface{}, error) {
+			var names []string
+			for k := range def.Symbols() {
+				names = append(names, k)
+			}
+			sort.Strings(names)
+			if len(names) > 3 {
+				names = names[:3]
+			}
+			tbl, err := lexer.MakeSymbolTable(def, names...)
+			var parts []string
+			for k, v := range tbl {
+				parts = append(parts, fmt.Sprintf("%d=%v", k, v))
+			}
+			sort.Strings(parts)
+			s := strings.Join(parts, ",")
+			return &s, err
+		})
 	case "SymbolsByRune":
 		res = call(func() (interface{}, error) {
 			m := lexer.SymbolsByRune(def)
@@ -261,8 +285,8 @@ func execEbnfOp(op *concOp, reference bool) string {
 // no constructor, hence no fresh instance): later results must equal it.
 var genMemo = map[string]string{}
 
-var parserOpKinds = []string{"ParseString", "ParseBytes", "Parse", "ParseFromLexer", "Parser.Lex", "Parser.String", "PostError", "ParseString", "ParseString", "ParseFailingReader"}
-var defOpKinds = []string{"Def.Lex", "Def.LexString", "Def.LexBytes", "Def.Symbols", "Def.Rules", "Def.MarshalJSON", "SymbolsByRune", "Def.LexString", "Def.LexString", "Def.LexFailingReader"}
+var parserOpKinds = []string{"ParseString", "ParseBytes", "Parse", "ParseFromLexer", "Parser.Lex", "Parser.String", "PostError", "ParseString", "ParseString", "ParseFailingReader", "ParseTrace"}
+var defOpKinds = []string{"Def.Lex", "Def.LexString", "Def.LexBytes", "Def.Symbols", "Def.Rules", "Def.MarshalJSON", "SymbolsByRune", "Def.LexString", "Def.LexString", "Def.LexFailingReader", "MakeSymbolTable"}
 
 func runConcurrency(rc *RunCtx) *Violation {
 	delims := runDelims(rc.seed)
@@ -383,7 +407,7 @@ func runConcurrency(rc *RunCtx) *Violation {
 		switch {
 		case strings.HasPrefix(op.kind, "ebnf."):
 			return execEbnfOp(op, reference)
-		case strings.HasPrefix(op.kind, "Def.") || op.kind == "SymbolsByRune":
+		case strings.HasPrefix(op.kind, "Def.") || op.kind == "SymbolsByRune" || op.kind == "MakeSymbolTable":
 			sd := defs[op.di]
 			def := sd.def
 			if reference && !sd.gen {
@@ -566,7 +590,7 @@ func runConcurrency(rc *RunCtx) *Violation {
 		if cp.kind == "PostError" {
 			cp.kind = "ParseString"
 		}
-		isGen := (strings.HasPrefix(op.kind, "Def.") || op.kind == "SymbolsByRune") && defs[op.di].gen
+		isGen := (strings.HasPrefix(op.kind, "Def.") || op.kind == "SymbolsByRune" || op.kind == "MakeSymbolTable") && defs[op.di].gen
 		if isGen {
 			mk := defs[op.di].name + "|" + op.kind + "|" + op.input
 			ref, ok := genMemo[mk]
@@ -601,7 +625,7 @@ func runConcurrency(rc *RunCtx) *Violation {
 			switch {
 			case strings.HasPrefix(r.op.kind, "ebnf."):
 				what = "package-level ebnf parser"
-			case strings.HasPrefix(r.op.kind, "Def.") || r.op.kind == "SymbolsByRune":
+			case strings.HasPrefix(r.op.kind, "Def.") || r.op.kind == "SymbolsByRune" || r.op.kind == "MakeSymbolTable":
 				what = "shared definition " + defs[r.op.di].name
 				where = defs[r.op.di].name
 			default:
